@@ -1699,6 +1699,8 @@ pub fn run_scene(scene: &Scene, dev: Dev, judge: Judge) -> RunResult {
     };
     match r {
         Ok(Ok(())) => res.finalized = true,
+        // an empty file GUID is documented as not allowed: rejecting it (here or earlier) is correct
+        Ok(Err(_)) if scene.guid.is_empty() => {}
         Ok(Err(err)) => res.violations.push(viol(pj, format!("reject/finalize/{}", err_class(&err)), err_str(&err))),
         Err(_) => return res,
     }
